@@ -211,6 +211,16 @@ constexpr auto year_month_day::operator-=(years const& y) noexcept -> year_month
     return {year{y}, md.month(), md.day()};
 }
 
+constexpr year_month_day_last::operator sys_days() const noexcept
+{
+    return sys_days{year_month_day{year(), month(), day()}};
+}
+
+constexpr year_month_day_last::operator local_days() const noexcept
+{
+    return local_days{static_cast<sys_days>(*this).time_since_epoch()};
+}
+
 } // namespace etl::chrono
 
 #endif // TETL_CHRONO_YEAR_MONTH_DAY_HPP
